@@ -179,7 +179,7 @@ esl_heap_IExtractTop(ESL_HEAP *hp, int *opt_val)
 {
   int bestval;
 
-  if (hp->n == 0) { *opt_val = 0; return eslEOD; }
+  if (hp->n == 0) { if (opt_val) *opt_val = 0; return eslEOD; }
 
   bestval = hp->idata[0];
 
